@@ -15,6 +15,10 @@ func (c *Client) expandCID(rid string) string {
 
 // onRequest is called for every request crossing the seam.
 func (s *Sim) onRequest(r *Req) {
+	if s.stop != nil {
+		// after Stop or the loss of the messaging system only C20 is judged
+		return
+	}
 	// C09.a: a resource is requested only under an event subscription made earlier
 	if r.Type == "get" && !r.EventSubbed && len(s.W.Resets) > 0 && s.hadSubscription(r.Name) {
 		// known finding F-23: a reset re-fetch holds no use count; waiting in the
@@ -1004,6 +1008,8 @@ func (s *Sim) nonTrivial() bool {
 		return st["fault.token_reset"] > 0 || st["fault.token_event"] >= 2
 	case "C11":
 		return st["fault.client_disconnect"] > 0 && st["oracle.C11.a_seam"] > 0
+	case "C20":
+		return st["oracle.C20.b"] > 0 && st["oracle.C20.a"] > 0
 	case "C12":
 		return st["oracle.C12.a_refetches"] > 0
 	case "C13":
